@@ -14,7 +14,7 @@
 From Apko Require Import Base.Prelude Base.Regex Generated.Regexes Generated.VersionConsts Generated.C03Version
   Model.Version Model.Resolver Spec.ResolveSpec Spec.ResolveMultiSpec
   Proofs.ResolveProofs Proofs.ResolveProofs2 Proofs.C14Proofs Proofs.ResolveTheorems Proofs.ResolveEnvelope
-  Proofs.ResolveClosure Proofs.ResolveClosure2 Proofs.ResolveMulti.
+  Proofs.ResolveClosure Proofs.ResolveClosure2 Proofs.ResolveNoPanic Proofs.ResolveMulti.
 Open Scope string_scope. Open Scope list_scope. Open Scope nat_scope.
 
 Definition winners (R : resolver) (l : list pid) : Prop := Forall (fun j => is_winner R j = true) l.
@@ -216,7 +216,7 @@ Section WalkM.
       destruct (eval_dep_opts_sat_m U MF self st pin d cands Vs (Hcs d Hdcs) Hcons' Hev best EB) as [Vb Sb].
       pose proof (pick_sel_ok R self _ _ Vs Hsel EP) as Hsel1.
       assert (Hdq1 : dq_ok R dq1).
-      { apply (disqualify_conflicts_dq_ok R MF best (st_dq st) dq1 Vb Wb Hdqok); [|exact ED].
+      { apply (disqualify_conflicts_dq_ok R (new_resolver_wf U) MF best (st_dq st) dq1 (new_resolver_sound U) Vb Wb Hdqok); [|exact ED].
         intros pv Hpv. apply provider_listed; assumption. }
       assert (W : wspec2 (k_name (getp R self) :: parents) best (with_selected (with_dq st dq1) sel1) st2 sub).
       { apply Hrec; [exact ER | exact Vb | exact Wb | exact Hsel1 | exact Hdq1 | exact Hex]. }
@@ -434,7 +434,7 @@ Section TopM.
       apply next_package_first in EN. destruct (Hcs next EN) as [Hpos Hcov].
       destruct (resolve_package_winner dq next i Hdq Hpos Hcov ER) as [Vi Wi].
       apply (IH _ _ _ _ _ H).
-      + apply (disqualify_conflicts_dq_ok R MF i dq dq1 Vi Wi Hdq); [|exact ED]. intros pv Hpv. apply provider_listed; assumption.
+      + apply (disqualify_conflicts_dq_ok R (new_resolver_wf U) MF i dq dq1 (new_resolver_sound U) Vi Wi Hdq); [|exact ED]. intros pv Hpv. apply provider_listed; assumption.
       + apply (ex_ok_aset R depmap i Hex Vi Wi).
       + intros w Hw. apply filter_In in Hw. destruct Hw as [Hw _]. destruct (Hcs w Hw) as [A B]. split; [exact A|].
         eapply covered_mono; [exact B | eapply disqualify_conflicts_mono; exact ED].
@@ -495,10 +495,10 @@ Proof.
   destruct (HW (cook_dep w) (in_map _ _ _ Hw)) as [Hneg Hpos]. cbn [cook_dep d_pos] in Hpos.
   unfold candidates in H2. destruct (alookup (s_name (cook_str w)) (r_names R)) as [l|] eqn:EL; [|contradiction].
   pose proof (filter_packages_sub _ _ _ _ _ H2) as [Hil Hindq].
-  destruct (mf_entry R MF _ _ i EL Hil) as [w0 [EW [Hw0l [Hn _]]]].
-  assert (j = w0).
-  { pose proof (is_winner_of R j (WS j H3)) as Ej. rewrite H4, EW in Ej. inversion Ej. reflexivity. }
-  subst w0.
+  assert (Hw0l : In j l).
+  { destruct (mf_entry R MF _ _ i EL Hil) as [[w0 [EW [Hw0l [Hn _]]]]|[Hall _]].
+    - pose proof (is_winner_of R j (WS j H3)) as Ej. rewrite H4, EW in Ej. inversion Ej; subst w0. exact Hw0l.
+    - rewrite (winner_uniq R j i (WS j H3) (Hall i Hil) H4). exact Hil. }
   assert (Vj : valid R j) by (eapply nm_lookup_valid; [apply (proj1 (new_resolver_wf U)) | exact EL | exact Hw0l]).
   exists (nth j U dummy_pkg). split; [unfold pkgs_of; apply in_map_iff; exists j; split; [reflexivity | exact H3]|].
   apply pkg_satisfies_b_spec. rewrite <- getp_new_resolver. fold R.
